@@ -516,7 +516,61 @@ theorem sep_symext {K A B : Type} [Fintype K] [Fintype A] [Fintype B] (n : Nat) 
     rw [h2, Finset.prod_congr rfl fun _ _ => hb k]
     simp
 
+/-! ## an analytically complete family: Bell-diagonal states -/
+
+/-- concrete read-out of the two-qubit partial transpose -/
+theorem ptB22 {α : Type} (M : Nat → Nat → α) (r c : Fin 4) :
+    ptB 2 2 M r c = M (r / 2 * 2 + c % 2) (c / 2 * 2 + r % 2) := by
+  fin_cases r <;> fin_cases c <;> rfl
+
+/-- partial transpose of `2ρ` for a Bell-diagonal state, as a complex 4×4 matrix -/
+def bellPT (p : Nat → ℝ) : Matrix (Fin 4) (Fin 4) ℂ :=
+  Matrix.of fun r c : Fin 4 => ptB 2 2 (bellDiag2 fun i => (p i : ℂ)) r c
+
+theorem bellPT_eq_mixture (p : Nat → ℝ) (hs : p 0 + p 1 + p 2 + p 3 = 1) :
+    bellPT p = Matrix.of fun r c : Fin 4 => ∑ k : Fin 4,
+      (((1 - 2 * p (3 - k)) / 2 : ℝ) : ℂ) * (bellVec k r : ℂ) * star (bellVec k c : ℂ) := by
+  have hs' : (p 0 : ℂ) + p 1 + p 2 + p 3 = 1 := by exact_mod_cast hs
+  ext r c
+  simp only [bellPT, Matrix.of_apply, ptB22, Fin.sum_univ_four]
+  have h3 : (p 3 : ℂ) = 1 - p 0 - p 1 - p 2 := by linear_combination hs'
+  fin_cases r <;> fin_cases c <;> simp [bellDiag2, bellVec, h3] <;> ring
+
+
+/-- **Bell-diagonal states: PPT ⇔ every weight ≤ ½** (`p_max ≤ ½`). The matrix is the one `is_ppt` / `get_negativity`
+build (`ptB 2 2`), for `ρ = Σ_i p_i |Bell_i⟩⟨Bell_i|`, `Σ p = 1`; its eigenvalues are `½ − p_i`. -/
+theorem bellDiag_ppt_iff (p : Nat → ℝ) (hs : p 0 + p 1 + p 2 + p 3 = 1) :
+    (bellPT p).PosSemidef ↔ ∀ i < 4, p i ≤ 1 / 2 := by
+  constructor
+  · intro h i hi
+    -- quadratic form at the Bell vector that carries the eigenvalue 1 - 2 p_i
+    have hq := h.dotProduct_mulVec_nonneg (fun r : Fin 4 => (bellVec (3 - i) r : ℂ))
+    have h3 : (p 3 : ℂ) = 1 - p 0 - p 1 - p 2 := by
+      have hs' : (p 0 : ℂ) + p 1 + p 2 + p 3 = 1 := by exact_mod_cast hs
+      linear_combination hs'
+    have key : star (fun r : Fin 4 => (bellVec (3 - i) r : ℂ)) ⬝ᵥ (bellPT p *ᵥ fun r : Fin 4 => (bellVec (3 - i) r : ℂ))
+        = ((2 * (1 - 2 * p i) : ℝ) : ℂ) := by
+      simp only [bellPT, dotProduct, mulVec, Matrix.of_apply, ptB22, Fin.sum_univ_four, Pi.star_apply]
+      interval_cases i <;> simp [bellDiag2, bellVec, h3] <;> ring
+    rw [key, Complex.zero_le_real] at hq
+    linarith
+  · intro h
+    rw [bellPT_eq_mixture p hs]
+    exact posSemidef_mixture _ (fun k => by
+      have := h (3 - k) (by omega)
+      linarith) _
+
+
 /-! ## the hypotheses are satisfiable, the statements are not vacuous -/
+
+/-- the boundary state `p = (½, ½, 0, 0)` is PPT, the Bell state `p = (1,0,0,0)` is not -/
+example : (bellPT fun i => if i < 2 then 1 / 2 else 0).PosSemidef :=
+  (bellDiag_ppt_iff _ (by norm_num)).2 fun i hi => by interval_cases i <;> norm_num
+
+example : ¬ (bellPT fun i => if i = 0 then 1 else 0).PosSemidef := fun h => by
+  have := (bellDiag_ppt_iff _ (by norm_num)).1 h 0 (by norm_num)
+  norm_num at this
+
 
 /-- a valid multi-index exists for every shape used by the harness, e.g. `(1,2,1)` in `(2,3,2)` -/
 example : InShape [1, 2, 1] [2, 3, 2] := by unfold InShape; simp
